@@ -81,6 +81,17 @@ CHECKS = {
               "affine map (computed independently in exact arithmetic) of the evaluated point before, weights and bases untouched; angles/axes from rational half-angle tangents and Pythagorean triples."),
         note=TB + " C09: cos/sin/sqrt are oracle inputs (rational points on the circle); rotate/mirror/project instances of the general theorem are not spelled out as separate theorems.",
         design='DESIGN.md section 8, C09'),
+    'C20': dict(
+        engine='basisdiff+effects',
+        technique='Coq proof (snap specification and idempotence, tolerance windows of continuity and VertexDict, big-step semantics of nested state() blocks with try/finally) + differential run of extracted models vs the real context manager and tolerance-dependent routines',
+        text=("Theorems in Properties/C20.v: snap moves a parameter to a knot iff one is within the tolerance; evaluation of any derivative order and side at t equals evaluation at snap(t); "
+              "rounding fuzz beyond an open domain end is the end knot; continuity() counts exactly the knots in the tolerance window; VertexDict matches a coordinate iff it is inside the "
+              "window; for every program over the settings (assignments, arbitrarily nested with-blocks, exceptions raised anywhere, library calls) every with-block restores all six settings and "
+              "only top-level assignments write; the pre-repair generator code is refuted by a witness. Correspondence: seven tolerance values x parameters at knot +- {1/4..4} tol, "
+              "continuity queries, fuzz beyond domain ends, VertexDict identification at {1/2,2,10} atol, catalogue vertex counts under configured tolerances, 300 (6000) random programs "
+              "run with the real splipy.state.state, and a settings monitor around API calls including the G2 reader of trimmed surfaces."),
+        note=TB + " C20: that library calls have an empty write set is an assumption of theorem 7 that is tied to the code only by the settings monitor; Python contextmanager/try-finally semantics are modelled.",
+        design='DESIGN.md section 8, C20'),
 }
 
 PENDING_REASON = "not claimed in this revision: model/theorems for this property are still being built (see DESIGN.md section 8 for the plan)"
